@@ -143,6 +143,41 @@ func (c *binHashCircuit) Define(api frontend.API) error {
 	return nil
 }
 
+// the caller's buffer must not be touched by a hasher: a prefix is hashed first, then the whole message with a second hasher
+type prefixWholeCircuit struct {
+	In   []uints.U8
+	Exp1 []uints.U8 `gnark:",public"`
+	Exp2 []uints.U8 `gnark:",public"`
+	kind string
+	a    int
+}
+
+func (c *prefixWholeCircuit) Define(api frontend.API) error {
+	uapi, err := uints.New[uints.U32](api)
+	if err != nil {
+		return err
+	}
+	h1, err := newBinHasher(api, c.kind, 0)
+	if err != nil {
+		return err
+	}
+	h1.Write(c.In[:c.a])
+	r1 := h1.Sum()
+	h2, err := newBinHasher(api, c.kind, 0)
+	if err != nil {
+		return err
+	}
+	h2.Write(c.In)
+	r2 := h2.Sum()
+	for i := range r1 {
+		uapi.ByteAssertEq(r1[i], c.Exp1[i])
+	}
+	for i := range r2 {
+		uapi.ByteAssertEq(r2[i], c.Exp2[i])
+	}
+	return nil
+}
+
 // ---- field hashers
 type fieldHashCircuit struct {
 	In    []frontend.Variable
@@ -522,6 +557,26 @@ func runC15(args []string) int {
 	check("ripemd160", "engine", msgOf(70), 70, 0, false, []int{5, 60})
 	check("ripemd160", "scs", msgOf(20), 20, 0, false, nil)
 	checkWrong("ripemd160", "engine", msgOf(9), 9, false)
+	// prefix then whole message, one buffer, two hashers
+	for _, kind := range []string{"sha256", "ripemd160", "sha3-256", "keccak256"} {
+		for _, la := range [][2]int{{100, 20}, {64, 32}} {
+			msg := msgOf(la[0])
+			r1, r2 := refBinHash(kind), refBinHash(kind)
+			r1.Write(msg[:la[1]])
+			r2.Write(msg)
+			d1, d2 := r1.Sum(nil), r2.Sum(nil)
+			tmpl := &prefixWholeCircuit{In: make([]uints.U8, len(msg)), Exp1: make([]uints.U8, len(d1)), Exp2: make([]uints.U8, len(d2)), kind: kind, a: la[1]}
+			asg := &prefixWholeCircuit{In: uints.NewU8Array(msg), Exp1: uints.NewU8Array(d1), Exp2: uints.NewU8Array(d2), kind: kind, a: la[1]}
+			var err error
+			pm := catchPanic(func() { err = test.IsSolved(tmpl, asg, bnQ) })
+			rep.Eval(fmt.Sprintf("prefix-whole|%s|%d|%d", kind, la[0], la[1]), true)
+			rep.Count("prefix-then-whole:" + kind)
+			if pm != "" || err != nil {
+				rep.Fail("c15:digest-mismatch:"+kind+":prefix-then-whole", fmt.Sprintf("%s: hashing a %d-byte prefix and then the whole %d-byte message from the same buffer with two hashers differs from the reference digests: %s %s", kind, la[1], la[0], pm, shortErr(err)),
+					c15Desc{Hash: kind, Mode: "engine", Len: la[0], Detail: fmt.Sprintf("prefix %d", la[1])})
+			}
+		}
+	}
 	runJobs()
 	// ---- MiMC on every curve
 	for _, id := range []ecc.ID{ecc.BN254, ecc.BLS12_377, ecc.BLS12_381, ecc.BLS24_315, ecc.BLS24_317, ecc.BW6_761, ecc.BW6_633} {
